@@ -159,6 +159,122 @@ theorem int_comparison_table (o : Oracle) (p : Prog) (inp : Input) (c : Cfg) (hc
   · by_cases h : y < x <;> simp [h] <;> omega
   · by_cases h : x < y <;> simp [h] <;> omega
 
+/-- an operand that is a value already on the stack model: a literal string from the table -/
+def litS (k : Nat) : E := .prim [iN .str k] .nil
+
+/-- `+` on strings is concatenation -/
+theorem string_plus_is_concatenation (o : Oracle) (p : Prog) (inp : Input) (c : Cfg) (hc : norm c.t = c.t)
+    (j k : Nat) (a b : Bytes) (ha : p.strs[j]? = some a) (hb : p.strs[k]? = some b) (oc : Opcode)
+    (h : typedOp .plus .str = some oc) :
+    evalE o p inp (.prim [i0 oc] (.cons (litS j) (.cons (litS k) .nil))) c = .ok (pushV (.str (a ++ b)) c) := by
+  obtain ⟨t, st, memo⟩ := c
+  obtain ⟨pc, m, caps, time, stack, dead⟩ := t
+  simp only [norm] at hc
+  injection hc with h1 h2
+  subst h1 h2
+  simp [typedOp, Ty.root] at h; subst h
+  have hj : ¬ ((j : Int) < 0) := by omega
+  have hk : ¬ ((k : Int) < 0) := by omega
+  simp [evalE, evalEs, litS, R.bind, runPrim, afterStep, step, stepCore, popString, P.andThen, norm, i0, iN, argInt,
+    pushV, ha, hb, hj, hk]
+
+/-- the implicit and explicit conversions: what `emitConversion` emits computes the conversion -/
+theorem conversion_int_to_float (o : Oracle) (p : Prog) (inp : Input) (c : Cfg) (hc : norm c.t = c.t) (x : Int)
+    (is : List Instr) (h : conversion .int .float = some is) :
+    evalE o p inp (.prim is (.cons (litI x) .nil)) c = .ok (pushV (.f64 (o.i2f x)) c) := by
+  obtain ⟨t, st, memo⟩ := c
+  obtain ⟨pc, m, caps, time, stack, dead⟩ := t
+  simp only [norm] at hc
+  injection hc with h1 h2
+  subst h1 h2
+  simp [conversion, Ty.root] at h; subst h
+  simp [evalE, evalEs, litI, R.bind, runPrim, afterStep, step, stepCore, popInt, P.andThen, norm, i0, pushV]
+
+theorem conversion_int_to_string (o : Oracle) (p : Prog) (inp : Input) (c : Cfg) (hc : norm c.t = c.t) (x : Int)
+    (is : List Instr) (h : conversion .int .str = some is) :
+    evalE o p inp (.prim is (.cons (litI x) .nil)) c = .ok (pushV (.str (itoa x)) c) := by
+  obtain ⟨t, st, memo⟩ := c
+  obtain ⟨pc, m, caps, time, stack, dead⟩ := t
+  simp only [norm] at hc
+  injection hc with h1 h2
+  subst h1 h2
+  simp [conversion, Ty.root] at h; subst h
+  simp [evalE, evalEs, litI, R.bind, runPrim, afterStep, step, stepCore, popInt, P.andThen, norm, i0, pushV]
+
+/-- a string to an integer: the library's base-10 parse, or the checked conversion error -/
+theorem conversion_string_to_int (o : Oracle) (p : Prog) (inp : Input) (c : Cfg) (hc : norm c.t = c.t)
+    (k : Nat) (s : Bytes) (hs : p.strs[k]? = some s) (is : List Instr) (h : conversion .str .int = some is) :
+    evalE o p inp (.prim is (.cons (litS k) .nil)) c =
+      match o.parseInt s 10 with
+      | some n => .ok (pushV (.i64 n) c)
+      | none => .halt (.err .convFailed) c.st c.memo := by
+  obtain ⟨t, st, memo⟩ := c
+  obtain ⟨pc, m, caps, time, stack, dead⟩ := t
+  simp only [norm] at hc
+  injection hc with h1 h2
+  subst h1 h2
+  simp [conversion, Ty.root] at h; subst h
+  have hk : ¬ ((k : Int) < 0) := by omega
+  cases hp : o.parseInt s 10 <;>
+    simp [evalE, evalEs, litS, R.bind, runPrim, afterStep, step, stepCore, popString, P.andThen, norm, i0, iN, argInt,
+      pushV, hs, hp, hk]
+
+/-- comparisons of strings: byte-wise lexicographic order -/
+def strCmpMeaning : Op → Bytes → Bytes → Bool
+  | .lt, a, b => decide (a < b) | .gt, a, b => decide (b < a) | .le, a, b => !decide (b < a)
+  | .ge, a, b => !decide (a < b) | .eq, a, b => decide (a = b) | .ne, a, b => !decide (a = b)
+  | _, _, _ => false
+
+theorem string_comparison_table (o : Oracle) (p : Prog) (inp : Input) (c : Cfg) (hc : norm c.t = c.t)
+    (j k : Nat) (a b : Bytes) (ha : p.strs[j]? = some a) (hb : p.strs[k]? = some b)
+    (op : Op) (arg : Int) (jm : Bool) (h : cmpCode op = some (arg, jm)) :
+    evalE o p inp (.cmp (iN .scmp arg) jm (litS j) (litS k)) c = .ok (pushV (.bool (strCmpMeaning op a b)) c) := by
+  obtain ⟨t, st, memo⟩ := c
+  obtain ⟨pc, m, caps, time, stack, dead⟩ := t
+  simp only [norm] at hc
+  injection hc with h1 h2
+  subst h1 h2
+  have hj : ¬ ((j : Int) < 0) := by omega
+  have hk : ¬ ((k : Int) < 0) := by omega
+  cases op <;> simp [cmpCode] at h <;> obtain ⟨rfl, rfl⟩ := h <;>
+    simp [evalE, evalEs, litS, R.bind, runPrim, afterStep, step, stepCore, popString, P.andThen, norm, iN, branch, taken,
+      cmpStr, argInt, pushB, pushV, strCmpMeaning, ha, hb, hj, hk]
+
+/-- comparisons of floats are the library's -/
+def floatCmpMeaning (o : Oracle) : Op → UInt64 → UInt64 → Bool
+  | .lt, a, b => o.fcmp a b (-1) | .gt, a, b => o.fcmp a b 1 | .le, a, b => !o.fcmp a b 1
+  | .ge, a, b => !o.fcmp a b (-1) | .eq, a, b => o.fcmp a b 0 | .ne, a, b => !o.fcmp a b 0
+  | _, _, _ => false
+
+theorem float_comparison_table (o : Oracle) (p : Prog) (inp : Input) (c : Cfg) (hc : norm c.t = c.t)
+    (a b : UInt64) (op : Op) (arg : Int) (jm : Bool) (h : cmpCode op = some (arg, jm)) :
+    evalE o p inp (.cmp (iN .fcmp arg) jm (litF a) (litF b)) c = .ok (pushV (.bool (floatCmpMeaning o op a b)) c) := by
+  obtain ⟨t, st, memo⟩ := c
+  obtain ⟨pc, m, caps, time, stack, dead⟩ := t
+  simp only [norm] at hc
+  injection hc with h1 h2
+  subst h1 h2
+  cases op <;> simp [cmpCode] at h <;> obtain ⟨rfl, rfl⟩ := h <;>
+    simp [evalE, evalEs, litF, R.bind, runPrim, afterStep, step, stepCore, popFloat, P.andThen, norm, iN, branch, taken,
+      cmpFloat, argInt, pushB, pushV, floatCmpMeaning]
+
+/-- short-circuit: when `a` is false, `a && b` is false and `b` is not evaluated (whatever `b`
+    is, even an expression that would raise an error); when `a` is true, `a || b` is true -/
+theorem and_short_circuits (o : Oracle) (p : Prog) (inp : Input) (a b : E) (c c' : Cfg)
+    (h : evalE o p inp a c = .ok (pushB false c')) :
+    evalE o p inp (.and a b) c = .ok (pushB false c') := by
+  rw [evalE, h]
+  obtain ⟨t, st, memo⟩ := c'
+  simp [R.bind, branch, pushB, taken]
+
+theorem or_short_circuits (o : Oracle) (p : Prog) (inp : Input) (a b : E) (c c' : Cfg)
+    (h : evalE o p inp a c = .ok (pushB true c')) :
+    evalE o p inp (.or a b) c = .ok (pushB true c') := by
+  rw [evalE, h]
+  obtain ⟨t, st, memo⟩ := c'
+  simp [R.bind, branch, pushB, taken]
+
+
 /-! ### the excluded shapes deviate: a concrete program (known finding)
 
 `/1 > 0/ { m0++ }   /0 > 1/ { } else { otherwise { m1++ } }` — by the language reference the
